@@ -33,3 +33,12 @@ def classify(case, impl, model, oracle, kind):
     if kind == "oracle":
         return "oracle:" + oracle.split("@")[0].replace("fail ", "")
     return "diff"
+
+LEVEL_TEXT = ("Lean 4 theorems (kernel-checked, unbounded: every strategy pair, every finite event sequence) that the executable "
+              "model of WatermarkedStream satisfies the observation-level spec C13.runOk (monotone watermark, wm = max seen - delay, "
+              "late iff ts < wm, one fate per event, strictly increasing history, statistics add up), tied to "
+              "src/streaming/watermark.rs by a correspondence check (exhaustive short sequences + random longer ones; model vs "
+              "implementation observations after every add_event) and by evaluating the same Spec predicate on the implementation's observations.")
+LEVEL_NOTE = ("Trusted: Lean kernel + {propext, Classical.choice, Quot.sound}; hand-written model tied to the code by differential "
+              "testing only; harness/driver glue; Periodic (wall-clock) strategy not modelled.")
+DESIGN_REF = "§6 C13"
